@@ -149,6 +149,14 @@ def check_table(ctx, repo, label, kwargs, c, fn, pairs=None):
     lowest = min(int(l, 16) for l in labels) if labels else 0
     metric_pos = {l: int(l, 16) - lowest for l in labels}
     problems = []
+    if not kwargs.get("basis"):
+        r_ = kwargs.get("r", 0) if kwargs.get("signature") is None else list(kwargs["signature"]).count(0)
+        want_start = kwargs["start_index"] if kwargs.get("start_index") is not None else (0 if r_ == 1 else 1)
+        want_labels = [format(want_start + i, "x") for i in range(alg.attrs["d"])]
+        got_labels = [b2c[1 << i][1:] for i in range(alg.attrs["d"])] if all((1 << i) in b2c for i in range(alg.attrs["d"])) else None
+        if got_labels != want_labels:
+            problems.append(f"generators are named {got_labels}, expected {want_labels} (position + start index "
+                            f"{want_start}{' given explicitly' if kwargs.get('start_index') is not None else ' by default'})")
     if sorted(b2c) != list(range(2 ** alg.attrs["d"])) or {v: k for k, v in b2c.items()} != dict(c2b):
         problems.append(f"canon2bin / bin2canon are not inverse bijections onto 0..2^d-1: {b2c}")
     bad = []
@@ -167,12 +175,13 @@ def check_table(ctx, repo, label, kwargs, c, fn, pairs=None):
     return it, alg, signs
 
 
-@rule("C01.sign-table", props=["C01"], min_instances=11, mutants=[
+@rule("C01.sign-table", props=["C01", "C14"], min_instances=11, mutants=[
     ("swap count off by one", ("algebra", "        swaps += len(blade1) - idx - 1", "        swaps += len(blade1) - idx")),
     ("metric indexed without start_index", ("algebra", "sign *= self.signature[int(key, base=16) - self.start_index]", "sign *= self.signature[int(key, base=16) - 1]")),
     ("target reordering not counted", ("algebra", "            swaps += idx - i", "            swaps += 0")),
     ("metric applied to the result blade instead of the eliminated generators", ("algebra", "            for key in eliminated:", "            for key in prod:")),
     ("parity test inverted", ("algebra", "            sign = -1 if swaps % 2 else 1", "            sign = 1 if swaps % 2 else -1")),
+    ("explicit start_index=0 treated as not given", ("algebra", "        if self.start_index is None:\n            self.start_index = 0 if self.r == 1 else 1", "        if not self.start_index:\n            self.start_index = 0 if self.r == 1 else 1")),
 ], rewrites=[
     ("custom basis bits assigned in sorted generator order (any consistent bit assignment satisfies the relations)", ("algebra", "vec2bin = {vec: 2 ** j for j, vec in enumerate(vecs)}", "vec2bin = {vec: 2 ** j for j, vec in enumerate(sorted(vecs))}")),
     ("(-1) ** swaps", ("algebra", "            sign = -1 if swaps % 2 else 1", "            sign = (-1) ** swaps")),
